@@ -596,6 +596,10 @@ impl DB {
                 .lock()
                 .version_set
                 .release_version(current_version);
+            #[cfg(raindb_verif)]
+            crate::verif::event(db_state.options.db_path(), "IterDropped", |_| {
+                vec![("id", crate::verif::Val::U(verif_iter_id))]
+            });
         }));
 
         let read_sampling_seed = db_fields_guard.read_sampling_seed;
